@@ -108,6 +108,20 @@ func runC10(c *sim.Ctx) *sim.Violation {
 	}
 	acfg := apiCfg(c, false)
 	a := gen.Packet(t, acfg)
+	if t.Bool(1, 200) || (c.Run >= c10SweepRuns && c.Run < c10SweepRuns+4) {
+		// large PUBLISH frames on purpose: payloads of 64 KiB..256 KiB, and (runs
+		// right after the sweep, i.e. early in the process) 2..5 MiB
+		n := 65536 + t.Int(3*65536)
+		if c.Run >= c10SweepRuns && c.Run < c10SweepRuns+4 {
+			n = []int{2097152, 2097152 + 77, 3000000, 5 << 20}[int(c.Run-c10SweepRuns)%4]
+		}
+		g := gen.NewG(t, c.Thorough, 0)
+		a = &ref.AP{Type: ref.Publish, Flags: byte(t.Int(3)) << 1, Topic: []byte("large/payload"), Payload: g.Bin(n)}
+		if a.QoS() > 0 {
+			a.PacketID = 77
+		}
+		c.Count("probe.large-PUBLISH-on-purpose")
+	}
 	malformed := ""
 	if t.Bool(1, 6) {
 		switch a.Type {
@@ -200,6 +214,12 @@ func runC10(c *sim.Ctx) *sim.Violation {
 		c.Count("sweep.accept-k.every-k")
 	} else {
 		ks = []int{0, 1, 2, len(B) - 1, t.Int(len(B)), t.Int(len(B)), t.Int(len(B))}
+		// offsets just inside the header part, at its end, and well inside the payload
+		for _, k := range []int{8, 16, 24, 32, 64, 4096, 65536, 65537, len(B) / 2, len(B) - 2} {
+			if k < len(B) {
+				ks = append(ks, k)
+			}
+		}
 	}
 	transient := t.Bool(1, 3)
 	for _, k := range ks {
